@@ -410,7 +410,7 @@ class Visitor:
 
         property_function = self.get_base_property(decorators, function)
 
-        if overload:
+        if overload and self.current.kind is not Kind.FUNCTION:
             self.current.overloads[function.name].append(function)
         elif property_function:
             base_property: Attribute = self.current.members[node.name]  # type: ignore[assignment]
